@@ -53,6 +53,9 @@ type Machine struct {
 
 	pc        []*Term
 	pcSet     map[*Term]bool
+	facts     map[*Term]urange
+	rangeMemo map[*Term]urange
+	rangeDecided int
 	asserted  int
 	lastModel Model
 
